@@ -209,6 +209,8 @@ Proof.
   destruct (k' =? K_TYPE_NAME) eqn:C2.
   - simpl. destruct (k =? K_EXPLICIT_TN); auto.
   - destruct ((k' =? K_PROTOCOL) || (k' =? K_P)) eqn:C2'; [simpl; destruct (k =? K_PROT); auto |].
+    destruct ((k' =? K_PRIMARY_KEY) || (k' =? K_PK)) eqn:C2'';
+      [simpl; destruct (k =? K_PRIMARY_KEY); simpl; auto; destruct (k =? K_COL_PK); auto |].
     destruct (k' =? K_EXC_TABLE) eqn:C3.
     + simpl. destruct (k =? K_EXC_TABLE) eqn:D1; simpl; auto.
       destruct (k =? K_EXC_DB); auto.
